@@ -35,6 +35,7 @@ type FuncSpec struct {
 	Key       string // "Recv.Name" or "Name" ; closures "Outer$N"
 	Kind      string // func | extern | iface
 	Serves    []string
+	Uses      []string
 	Requires  []*Clause
 	Ensures   []*Clause
 	Promises  []*Clause // assumed at call sites, not proved (listed as trusted)
@@ -77,6 +78,7 @@ type GlobalFact struct {
 	Expr  ast.Expr
 	Where string
 	Using []string // axioms a lemma may use
+	Hidden bool    // only available to functions/lemmas that name it with `uses`
 }
 
 type GhostDecl struct {
@@ -379,7 +381,12 @@ func (c *Contracts) Load(path string, defaultPkg string) error {
 			if err != nil {
 				return fail(err)
 			}
-			c.Facts = append(c.Facts, &GlobalFact{Kind: word, Name: strings.TrimSpace(name), Pkg: pkg, Props: props, Text: strings.TrimSpace(body), Expr: e, Where: where})
+			gf := &GlobalFact{Kind: word, Name: strings.TrimSpace(name), Pkg: pkg, Props: props, Text: strings.TrimSpace(body), Expr: e, Where: where}
+			if len(props) == 1 && props[0] == "hidden" {
+				gf.Hidden = true
+				gf.Props = nil
+			}
+			c.Facts = append(c.Facts, gf)
 			cur = nil
 		case "func", "extern", "iface":
 			m := reFuncHdr.FindStringSubmatch(ln)
@@ -416,6 +423,8 @@ func (c *Contracts) Load(path string, defaultPkg string) error {
 				return fail(fmt.Errorf("clause %q outside a function block", word))
 			}
 			switch word {
+			case "uses":
+				cur.Uses = append(cur.Uses, strings.Fields(strings.ReplaceAll(rest, ",", " "))...)
 			case "serves":
 				cur.Serves = append(cur.Serves, strings.Fields(strings.ReplaceAll(rest, ",", " "))...)
 			case "pure":
